@@ -30,7 +30,7 @@
     showed: slot guards, deferred clear by the last guard holder, nested CLOSE_COUNT), with the known finding F51
     ([C05_F51_refuted]) and its repair as a parameter read off the source by the translator. *)
 From Coq Require Import List NArith Bool Arith.
-From TV Require Import Registry.Model Registry.Inv Registry.Run Registry.C05Proofs Registry.Single.
+From TV Require Import Registry.Model Registry.Inv Registry.Run Registry.C05Proofs Registry.Single Registry.Guards.
 From TV Require Registry.Micro Registry.MicroProofs Registry.MicroReal Registry.MicroRealProofs.
 From TVGen Require Gen_registry.
 Import ListNotations.
@@ -173,6 +173,39 @@ Theorem C05_no_panic : forall layers g h, Config_ok layers -> WellFormed layers 
 Proof. exact no_panic_history. Qed.
 Print Assumptions C05_no_panic.
 
+(* ------------------------------------------------------------------------------------------------------------------
+   Slab guards.  A history may also keep SpanRefs (OHold_ k h: `registry.span(&id)` kept under key k), write an extension
+   through them (OPoke), read it back (OPeek_) and drop them (ORelease).  A guard keeps the slot's storage alive: a span that
+   becomes unreferenced under a guard is reported closed and can no longer be looked up, but its slot is only MARKED
+   ([st_limbo]); the reference it holds on its parent is parked as a phantom handle (odd id) and released — with the slot's
+   extension storage — by the release of the last guard.  Every theorem above is about ALL histories, these operations
+   included (the invariant is preserved by them: Run.inv_step): exactly once, children first, gone after ... hold unchanged,
+   with `handles_n` = the user's handles + the parked references ([C05_handles_split]).  The three theorems below need no
+   hypothesis on the history at all. *)
+
+(** a span reported closed while a guard keeps its storage: unlookupable by id, its slot not occupied (nor handed out) *)
+Theorem C05_guards_gone_after : forall layers g h i s q p, In (i, s, q, p) (st_limbo (final (init layers g) h)) ->
+  lookup (final (init layers g) h) i s = None /\ s_occ (st_slots (final (init layers g) h) i (fst s)) = false.
+Proof. exact limbo_gone. Qed.
+Print Assumptions C05_guards_gone_after.
+
+(** no new span ever finds in its slot an extension that a guard of an earlier occupant wrote — whatever was poked through
+    held guards, before or after the close, and whenever they were released *)
+Theorem C05_guards_no_stale_data : forall layers g h x, In x (trace (init layers g) h) ->
+  match x with OStaleNote _ _ _ => False | _ => True end.
+Proof. exact no_stale_note. Qed.
+Print Assumptions C05_guards_no_stale_data.
+
+(** the bookkeeping invariant behind both: notes sit in occupied or limbo slots, guards are on live or limbo spans, limbo
+    slots are vacant *)
+Theorem C05_guards_invariant : forall layers g h, GN (final (init layers g) h).
+Proof. exact GN_history. Qed.
+Print Assumptions C05_guards_invariant.
+
+Theorem C05_handles_split : forall st i s, handles_n st i s = user_handles_n st i s + parked_n st i s.
+Proof. exact handles_split. Qed.
+Print Assumptions C05_handles_split.
+
 (** A syntactic sufficient condition for OwnDefault: one collector installed as the global default and no scoped default
     anywhere in the history (no hypothesis on well-formedness or on the configuration is needed). *)
 Theorem C05_own_default_single_collector : forall layers i0 h, forallb no_setdef h = true -> OwnDefault layers (Some i0) h.
@@ -185,7 +218,7 @@ Theorem C05_model_mirrors_source :
   (Gen_registry.fetch_sub_by, Gen_registry.close_threshold, Gen_registry.fetch_add_by, Gen_registry.closed_mark,
    Gen_registry.init_refs, Gen_registry.guard_dec, Gen_registry.guard_clear_at, Gen_registry.start_inc)
   = (1, 1, 1, 0, 1, 1, 1, 1)%N /\
-  forallb snd Gen_registry.shapes = true /\ length Gen_registry.shapes = 20 /\ Gen_registry.gen_unrecognised = [].
+  forallb snd Gen_registry.shapes = true /\ length Gen_registry.shapes = 21 /\ Gen_registry.gen_unrecognised = [].
 Proof. exact model_mirrors_source. Qed.
 Print Assumptions C05_model_mirrors_source.
 
